@@ -107,6 +107,9 @@ def run(ctx):
                     ctx.fail("wrong_counters_after_accept", {"link": c[0:5], "dir": d, "kind": k, "ssn": a, "rsn": b}, lib.v_text(exp), lib.v_text(got[1]))
         elif must is not None and seq_ok:
             ctx.fail("required_edge_refused", {"link": c[0:5], "dir": d, "kind": k, "ssn": a, "rsn": b}, f"accepted -> {must}", lib.v_text(got))
+        elif isinstance(got[1], list) and got[1][1:5] != list(c[1:5]):
+            # a refused frame was neither sent nor received: it must not be counted
+            ctx.fail("refused_frame_counted", {"link": c[0:5], "dir": d, "kind": k, "ssn": a, "rsn": b}, lib.v_text(list(c[1:5])), lib.v_text(got[1][1:5]))
     for i in range(0, len(cases), max(1, len(cases) // 300)):
         ctx.corr_cases.append(("link_step", cases[i]))
         ctx.corr_model.append(model[i])
@@ -175,4 +178,6 @@ def replay(ctx, rp):
     acc = got[0] is True
     if acc:
         return may is None or got[1][0] != may or not seq_ok
-    return must is not None and seq_ok
+    if must is not None and seq_ok:
+        return True
+    return isinstance(got[1], list) and got[1][1:5] != list(c["link"][1:5])       # a refused frame was counted
